@@ -33,6 +33,9 @@ CHECKS = {
  'C09': dict(cat=MC, technique='TLA+ transcription (spec/fkmnl) of the P_RAM / P_RAJ component curves on the log2 lattice, the P_RAM parameter case analysis, DamageCalculatorPRAM as coded vs literal accumulation in exact integers, and the safety-factor case analysis; TLC enumerates all sub-lattices; each state evaluated through the real classes',
    text='Curves, parameter zero rule, accumulation (x = (1-D1)/D2 and the early-failure search vs literally adding first-pass damage once and second-pass damage repeatedly, half hystereses half) and the safety-factor cases are finite case analyses with exact arithmetic on the chosen lattices; TLC proves as-coded = definition on the specification and each lattice state is one implementation test.',
    note='compute_beta is only spot-checked numerically (no lattice); P_RAJ accumulation not modelled (exercised via C10)', ref='5 C09'),
+ 'C12': dict(cat=MC, technique='TLA+ model of the Haigh-diagram segment walk as coded (distance-sorted segment loops, boundary rule, flipping point) vs the iso-damage line in exact rationals (spec/meanstress/Haigh.tla), plus the matrix re-binning predicate (Rebin.tla); TLC enumerates cycles x diagrams x target R; every state evaluated through the plain functions and both accessors',
+   text='TLC proves walk = iso-damage line, fixed point, idempotence, path independence and monotonicity on the rational lattice (incl. R = -inf, R > 1, segment borders, five-segment diagrams) and each lattice state is an implementation test with the exact expected amplitude; interface agreement and two-step paths are checked on the code; the matrix interface is checked for total conservation and exact class placement on border-hitting ranges.',
+   note='restricted (as the property) to cycles whose exact iso-damage amplitude stays positive; open finding C12-M4-ninf', ref='5 C12'),
 }
 PENDING = 'check not built yet in this round (planned, see DESIGN.md section 5)'
 NA = {
